@@ -7,12 +7,12 @@ import GilVerif.Model.C11
 namespace GilVerif.Lemmas.C11
 open GilVerif.Model.C11
 
-/-- the property of one result: not `hang`, and at most as much unread input as in `s` -/
+/-- the property of one result: the fuel did not run out, and at most as much unread input as in `s` -/
 def Good {α} (s : St) : Except Stop (α × St) → Prop
   | .ok (_, s') => s'.rest.length ≤ s.rest.length
-  | .error e => ∀ w, e ≠ Stop.hang w
+  | .error e => ∀ w, e ≠ Stop.fuel w
 
-/-- at state `s`: `m` does not stop with `hang`, and leaves at most as much unread input as it found -/
+/-- at state `s`: `m` does not run out of fuel, and leaves at most as much unread input as it found -/
 def NHs {α} (m : M α) (s : St) : Prop := Good s (m s)
 
 def NH {α} (m : M α) : Prop := ∀ s, NHs m s
@@ -52,7 +52,7 @@ theorem nh_bind {α β} {m : M α} {f : α → M β} (hm : NH m) (hf : ∀ a, NH
 theorem nh_pure {α} (a : α) : NH (pure a : M α) := by
   intro s; show Good s (Except.ok (a, s)); exact Nat.le_refl _
 
-theorem nh_stop {α} (e : Stop) (h : ∀ w, e ≠ Stop.hang w) : NH (stop e : M α) := by
+theorem nh_stop {α} (e : Stop) (h : ∀ w, e ≠ Stop.fuel w) : NH (stop e : M α) := by
   intro s; show Good s (Except.error e); exact h
 
 theorem nh_ioErr {α} : NH (ioErr : M α) := nh_stop _ (by intro w; simp)
